@@ -430,7 +430,7 @@ package otr3
 //@   requires k != nil
 //@   modifies k.theirKeyID, k.theirCurrentDHPubKey, k.theirPreviousDHPubKey, k.macKeyHistory.items, elems(k.macKeyHistory.items), k.oldMACKeys, elems(k.oldMACKeys)
 //@   ensures [C04.rot.their,C09.retire.their.rotates,C02.rot.their] senderKeyID == old(k.theirKeyID) ==> (k.theirKeyID == old(k.theirKeyID) + 1 && k.theirPreviousDHPubKey == old(k.theirCurrentDHPubKey) && k.theirCurrentDHPubKey == pubDHKey)
-//@   ensures [C04.rot.their.noop,C09.retire.their.only,C02.reveal.only.retired] senderKeyID != old(k.theirKeyID) ==> (k.theirKeyID == old(k.theirKeyID) && k.theirPreviousDHPubKey == old(k.theirPreviousDHPubKey) && k.theirCurrentDHPubKey == old(k.theirCurrentDHPubKey) && k.oldMACKeys === old(k.oldMACKeys) && k.macKeyHistory.items === old(k.macKeyHistory.items))
+//@   ensures [C04.rot.their.noop,C09.retire.their.only,C02.reveal.only.retired,C05.rot.their.counters] senderKeyID != old(k.theirKeyID) ==> (k.theirKeyID == old(k.theirKeyID) && k.theirPreviousDHPubKey == old(k.theirPreviousDHPubKey) && k.theirCurrentDHPubKey == old(k.theirCurrentDHPubKey) && k.oldMACKeys === old(k.oldMACKeys) && k.macKeyHistory.items === old(k.macKeyHistory.items))
 //@   ensures [C09.retire.conserve.rot.their] len(k.oldMACKeys) + len(k.macKeyHistory.items) == len(old(k.oldMACKeys)) + len(old(k.macKeyHistory.items))
 
 // ---------------------------------------------------------------------------
@@ -1262,6 +1262,9 @@ package otr3
 //@   requires convOK(c) && len(message) >= 11
 //@   modifies anything
 //@   modifies msglog(c)
+//@   ensures [C07.error.restart,C16.error.restart] old(hasPol(c, errorStartAKE)) ==> len(toSend) == 1
+//@   ensures [C07.error.norestart] !old(hasPol(c, errorStartAKE)) ==> len(toSend) == 0
+//@   ensures [C18.error.retransmit] old(c.msgState) == encrypted ==> c.resend.mayRetransmit == retransmitWithPrefix
 //@ func (*Conversation).receiveQueryMessage
 //@   ensures [C13.recv.version.query] (result1 == nil && len(result0) > 0) ==> c.version != nil
 //@   preserves [C14.ctx.frame.receiveQueryMessage] c.fragmentationContext.currentIndex, c.fragmentationContext.currentLen, c.fragmentationContext.frag
@@ -1294,7 +1297,7 @@ package otr3
 //@   preserves [C14.ctx.frame.tosend] c.fragmentationContext.currentIndex, c.fragmentationContext.currentLen, c.fragmentationContext.frag, c.injections.messages
 //@   requires c != nil && (err == nil && len(toSend) > 0 ==> c.version != nil)
 //@   modifies anything
-//@   ensures result0 === plain && result2 == err
+//@   ensures [C16.tosend.plain,C02.tosend.plain] result0 === plain && result2 == err
 
 // Receive: the public entry point.  convOK, akeInv, an empty injection queue and "no completed fragment stream
 // left over" are the representation invariants of a Conversation between calls: they are assumed here (type
@@ -1459,3 +1462,27 @@ package otr3
 //@   ensures [C10.sig.layout,C17.sig.layout] sigLayout(nil)
 //@   ensures [C10.sig.len] result1 == nil ==> (len(result0) == 40 && fresh(result0))
 //@   ensures [C13.sig.err] result1 != nil ==> result0 === nil
+
+// ---------------------------------------------------------------------------
+// clauses added for the third round of seeded changes
+// ---------------------------------------------------------------------------
+//@ func toSmpMessage1Q
+//@   ensures [C17.smp1q.question,C12.smp1q.question] ok ==> msg.hasQuestion
+//@   ensures [C17.smp1q.nul] ok ==> (exists i in 0..len(t.tlvValue) :: t.tlvValue[i] == 0)
+
+//@ func (*resendContext).shouldRetransmit
+//@   requires r != nil
+//@   pure
+//@   ensures [C18.retransmit.when,C19.retransmit.when] result <==> (len(r.messages.m) > 0 && r.mayRetransmit != noRetransmit)
+//@ func (*Conversation).shouldRetransmit
+//@   requires c != nil
+//@   pure
+//@   ensures [C18.retransmit.when.conv] result <==> (len(c.resend.messages.m) > 0 && c.resend.mayRetransmit != noRetransmit)
+
+//@ func (*sessionKeys).unlock
+//@   requires s != nil
+//@   pure
+//@   ensures [C09.unlock.keeps,C08.unlock.keeps] true
+//@ func (*sessionKeys).lock
+//@   requires s != nil
+//@   pure
